@@ -18,7 +18,7 @@ struct Site {
 struct V<'a> {
     func: String,
     sites: &'a mut Vec<Site>,
-    /// (caller, callee name, number of arguments, receiver text ("" for path calls))
+    /// (caller, callee name, number of arguments, receiver text; for path calls "::<Qualifier>" or "::")
     calls: &'a mut Vec<(String, String, usize, String)>,
 }
 
@@ -83,7 +83,12 @@ impl<'ast, 'a> Visit<'ast> for V<'a> {
             "yield_now" => self.sites.push(Site { func: self.func.clone(), kind: "yield".into(), path: String::new(), ords: vec![] }),
             "spin_loop" => self.sites.push(Site { func: self.func.clone(), kind: "spin".into(), path: String::new(), ords: vec![] }),
             "sleep" => self.sites.push(Site { func: self.func.clone(), kind: "sleep".into(), path: String::new(), ords: vec![] }),
-            _ => self.calls.push((self.func.clone(), last, c.args.len(), String::new())),
+            _ => {
+                // `Type::func(..)` / `Self::func(..)`: remember the qualifier
+                let segs: Vec<&str> = f.split("::").collect();
+                let qual = if segs.len() >= 2 { segs[segs.len() - 2].split('<').next().unwrap_or("") } else { "" };
+                self.calls.push((self.func.clone(), last, c.args.len(), format!("::{}", qual)))
+            }
         }
         syn::visit::visit_expr_call(self, c);
     }
@@ -140,13 +145,24 @@ pub fn generate(files: &[SourceFile], report: &mut Report) -> String {
             }
             let (nparams, has_recv, std_trait) = finfo[j];
             // method syntax: the receiver is not among the arguments; path syntax: it is
-            let arity_ok = if recv.is_empty() { *nargs == nparams + has_recv as usize } else { has_recv && *nargs == nparams };
+            let path_call = recv.starts_with("::");
+            let arity_ok = if path_call { *nargs == nparams + has_recv as usize } else { has_recv && *nargs == nparams };
             if !arity_ok {
                 continue;
             }
+            if path_call {
+                // a qualified call reaches only that type's function (`Self` = the caller's type)
+                let q = &recv[2..];
+                let caller_ty = caller.split("::").next().unwrap_or("");
+                let want_ty = if q == "Self" { caller_ty } else { q };
+                let callee_ty = f.split("::").next().unwrap_or("");
+                if !want_ty.is_empty() && f.contains("::") && want_ty != callee_ty {
+                    continue;
+                }
+            }
             // a method of a std trait (clone, next, eq, …) is only taken to be the crate's impl when
             // it is called on `self`/`other` or one of their fields
-            if std_trait && !recv.is_empty() {
+            if std_trait && !path_call {
                 let r = recv.trim_start_matches('&').trim_start_matches("(*");
                 if !(r.starts_with("self") || r.starts_with("other")) {
                     continue;
